@@ -67,6 +67,9 @@ def gen_screen(rnd, *, arity=None, n_rows=None, n_plates=None, n_samples=None, n
     samples = rnd.sample(SAMPLE_POOLS[alphabet], min(n_samples, len(SAMPLE_POOLS[alphabet])))
     plates = rnd.sample(PLATE_POOLS[alphabet], min(n_plates, len(PLATE_POOLS[alphabet])))
     doses = rnd.sample(DOSES if alphabet == "tricky" else DOSES[:5], n_doses)
+    if alphabet == "prefixy":
+        # with names t / t1 / t10: ("t1", 0.5) and ("t", 10.5) read alike once name and dose are glued together
+        doses = rnd.sample([0.5, 10.5, 0.05, 100.5, 1.0, 10.0, 2.5, 12.5], n_doses)
     if control is None and alphabet in ("wide", "prefixy"):
         control = rnd.choice(["", "control", names[0]])
     if control is None:
